@@ -248,4 +248,28 @@ theorem dependsOn_of_reach {p : Prog} {s : State} (h : InvR p s) (hs : SrcStatic
         Bool.and_eq_true]
       exact .inr ⟨y, hlt, hrd, ih f (by omega) hky⟩
 
+/-! ## no glitch: a read inside an effect run returns the from-scratch value of that moment -/
+
+/-- In any state reached during the run of effect `e` (characterised by `InvR` and `EffLoc`, which
+`evalEff_spec` / `evalEff_specU` show to hold at every evaluation step of an effect body), a tracked
+read of a data node `x` returns the from-scratch value of `x` in the state right after the read
+(programs whose memos use tracked reads only). -/
+theorem effect_read_no_glitch {p : Prog} {f : Nat} (hwf : WF p = true) (htr : MemoTracked p)
+    {e : Nat} (hef : e ≤ f) {s : State} (h : InvR p s) (hl : EffLoc s e) {x : Nat} (hx : x < e)
+    (hkx : (s.get x).kind ≠ .eff) :
+    (readNode (upd p f) s x).2 = specVal p (readNode (upd p f) s x).1 x := by
+  obtain ⟨s1, s2, v, ch, hrd, t, h1, up, hc, hv⟩ :=
+    readEff_cases (upd_ok (memoOK_of_wf hwf) f) hef h hl hx hkx
+  rw [hrd]
+  simp only
+  have hxp : x < p.length := by
+    have := s.lt_of_running hl.running
+    rw [h.len] at this; omega
+  have hk2 : (s2.get x).kind ≠ .eff := by
+    have : (s2.get x).kind = (s.get x).kind := (up.frame.kind x).trans (t.kind x)
+    rw [this]; exact hkx
+  have := up.inv.clean_correct hwf htr x hxp hk2 hc
+  rw [hv] at this
+  exact Option.some.inj this
+
 end Leptos.Reactive
